@@ -10,6 +10,7 @@ Mirrors, function for function:
 -/
 import PvModel.IntMath
 import PvModel.Util
+import PvModel.Coins
 
 namespace PvModel.Fees
 open PvModel
@@ -115,5 +116,41 @@ def commitmentFee (i : CsfIn) : Except AErr (Int × Int × Int) :=
         match applyBips (i.feeAmt + asFee) i.bips with
         | .error e => .error e
         | .ok fee => .ok (convInt, i.feeAmt + asFee, fee)
+
+/-! ### `MsgFeesDistribution.Increase` (x/msgfees/types/fee.go:50)
+
+The distribution a transaction's additional message fees are collected into: the total, the
+module's (fee collector's) part and one `sdk.Coins` per recipient. Recipient credits are kept as
+an append-only `Ledger` (entries `(recipient, denom, amount)`), so a recipient's coins are
+`Ledger.bal` and the sum over all recipients is `Ledger.supply`. -/
+
+structure Dist where
+  total : Coins := []
+  module : Coins := []
+  recips : Ledger := []
+
+/-- one `Increase(coin, bips, recipient)` call; `rcpt = ""` is "no recipient". -/
+def increase (s : Dist) (den : Denom) (amt : Int) (bips : Nat) (rcpt : String) : Except AErr Dist :=
+  if amt ≤ 0 then .ok s        -- `!coin.IsPositive()`: nothing to distribute
+  else
+    let total := s.total.add [(den, amt)]
+    if rcpt = "" then .ok { s with total := total, module := s.module.add [(den, amt)] }
+    else match splitCoinByBips amt bips with
+      | .error e => .error e
+      | .ok (r, m) =>
+        .ok { total := total
+              module := if m = 0 then s.module else s.module.add [(den, m)]
+              recips := s.recips.credit rcpt [(den, r)] }
+
+/-- a call of the sequence: denom, amount, recipient basis points, recipient -/
+abbrev DistCall := Denom × Int × Nat × String
+
+/-- the calls of one transaction, in order; stops at the first error like the msg-fee handler -/
+def increaseAll (s : Dist) : List DistCall → Except AErr Dist
+  | [] => .ok s
+  | (den, amt, bips, rcpt) :: rest =>
+    match increase s den amt bips rcpt with
+    | .error e => .error e
+    | .ok s' => increaseAll s' rest
 
 end PvModel.Fees
